@@ -3,7 +3,7 @@
 //   init <tag> <minStake> <minLock> <timeUnit>         fresh world; the three numbers are the configuration values the
 //                                                      model computes with, checked against the contract's stored config
 //   addb <i> <readPrice> <charge‰> <stake>             add_blobber by blobber i (+ stake_pool_lock of <stake> by client 0 if > 0)
-//   newa <owner j> <i,i,..>                            new_allocation_request on exactly these blobbers (index = order of success)
+//   newa <owner j> <i,i,..> <value>                    new_allocation_request on exactly these blobbers (index = order of success)
 //   tick <seconds>                                     next block, later
 //   lock <j> <target j'> <value>                       read_pool_lock
 //   unlock <j>                                         read_pool_unlock
@@ -84,7 +84,7 @@ func wellFormed(op []string) bool {
 	case "addb":
 		return n == 4 && isIdx(a[0], nBlobbers) && isNat(a[1]) && isNat(a[2]) && atoi(a[2]) <= 1000 && isNat(a[3])
 	case "newa":
-		if n != 2 || !isIdx(a[0], nClients) {
+		if n != 3 || !isIdx(a[0], nClients) || !isNat(a[2]) {
 			return false
 		}
 		for _, s := range strings.Split(a[1], ",") {
@@ -219,7 +219,8 @@ func (x *world) run(op []string) string {
 		if len(ids) == 1 {
 			in["data_shards"], in["parity_shards"] = 1, 0
 		}
-		r := x.exec(x.cli[j], "new_allocation_request", 10e10, in)
+		val, _ := strconv.ParseUint(a[2], 10, 64)
+		r := x.exec(x.cli[j], "new_allocation_request", val, in)
 		if r.status != "ok" {
 			return "fail"
 		}
